@@ -24,6 +24,8 @@ var c12Palettes = [][]c12Field{
 	{{name: "Foo"}, {name: "foo"}, {name: "Bar", ptr: true}, {name: "baz", tag: `json:"baz" yaml:"z"`}},
 	{{name: "A"}, {name: "B", ptr: true}, {name: "Ωmega"}, {name: "X1"}, {name: "x1"}},
 	// tags that merely look like the one wire honours
+	// names made of underscores only are ordinary fields unless the name is exactly "_"
+	{{name: "__"}, {name: "___", ptr: true}, {name: "_x"}, {name: "X_"}},
 	{{name: "A", tag: `protowire:"-"`}, {name: "B", tag: `json:"-"`}, {name: "C", tag: `nowire:"-" json:"c"`}, {name: "D", tag: `wire2:"-" x:"wire:\"-\""`, ptr: true}},
 }
 
@@ -44,6 +46,9 @@ func c12StructProgram(id string, pal []c12Field, prevented uint, pkg int) *Progr
 			name = upperFirst(name)
 			if f.name == "foo" || f.name == "x1" {
 				name = "Lower" + name
+			}
+			if name[0] == '_' {
+				name = "U" + name
 			}
 		}
 		var t *Ty
@@ -125,6 +130,9 @@ func c12FieldsProgram(id string, pal []c12Field, parentPtr bool, parentSrc strin
 			name = upperFirst(name)
 			if f.name == "foo" || f.name == "x1" {
 				name = "Lower" + name
+			}
+			if name[0] == '_' {
+				name = "U" + name
 			}
 		}
 		var t *Ty
